@@ -26,7 +26,8 @@ LEVEL = "exploration"
 TECHNIQUE = "runtime-monitoring"
 RULE = ("case = one generated project (import graph shape in {single, chain, triangle(diamond on 3 files), fan, "
         "2-cycle, 3-cycle, 2-cycle with tail, all-mutual, self-import, self-import plus file} x import style in "
-        "{as, plain, mixed, both} x random public/private mixes of functions and methods, imports before or after "
+        "{as, plain, mixed, both} x random public/private mixes of functions and methods, function names defined "
+        "twice (public then private, private then public: the last definition decides), imports before or after "
         "definitions), every file used as root for check and test, file 0 also for run; distinct key = (shape, "
         "import style, sorted set of judged access classes (own / qualified / unqualified / method / transitive x "
         "public / private) x outcome)")
@@ -35,7 +36,7 @@ ASSUME = ["the visibility rules of website/keyword:public.md and keyword:import.
           "`garden test` evaluates test bodies with the same evaluator and import loader as `garden run`"]
 BATCH = 1
 FLOOR = {"quick": 8, "thorough": 40}
-BUDGET = {"quick": 35, "thorough": 600}
+BUDGET = {"quick": 25, "thorough": 600}
 
 
 def corpus_cases():
@@ -57,6 +58,8 @@ def gen_cases(tier, seed):
     for shape in V.SHAPES:
         for mode in ("as", "plain"):
             yield {"project": V.gen_project(rng, shape, mode), "cseed": rng.getrandbits(32)}
+    for shape, mode in (("single", "as"), ("single", "plain"), ("cycle2", "both"), ("chain", "mixed")):
+        yield {"project": V.gen_project(rng, shape, mode, redefs=True), "cseed": rng.getrandbits(32)}
     yield {"_marker": "shapes x {as, plain}", "shapes": len(V.SHAPES),
            "space": "one project per import graph shape and pure import style"}
     while True:
